@@ -132,6 +132,8 @@ class SignatureAdapter(Signature):
                         # Looks like we have no parameter for this positional
                         # argument
                         # 'too many positional arguments' forgiven
+                        # (the keyword-only parameter itself is still bound by name below)
+                        parameters_ex = (param,)
                         break
 
                     if param.kind == Parameter.VAR_POSITIONAL:
